@@ -24,6 +24,39 @@ CHECKS = {
     ),
 }
 
+CHECKS.update({
+    "C01": (
+        EXPL,
+        "bounded-exhaustive enumeration of PedMEC instances executed on the real solver, judged by a brute-force reference",
+        "All instances of a layered space (single individual, two unrelated individuals, trio, quartet; all read matrices up to "
+        "R*C <= 12 over {0,1,absent} in every sorted order; weights, all genotype vectors, phred likelihood triples, recombination "
+        "costs, explicit position lists with uncovered columns, long tables that exercise sqrt checkpointing) are run through "
+        "whatshap.core.PedigreeDPTable; reported cost, returned bipartition + transmission vector and every unflagged allele are "
+        "compared with an independent brute force over all bipartitions, transmission paths and allele assignments.",
+        "Trusted: native/oracle.cpp and its pure-Python twin (cross-checked at start-up), small value sets for weights/likelihoods/costs. "
+        "Small-scope: instances beyond the bounds are not covered.",
+        "C01",
+    ),
+    "C02": (
+        EXPL,
+        "bounded-exhaustive enumeration of synthetic worlds (FASTA+VCF+BAM with known haplotypes) run through the real pipeline",
+        "Every world of the alphabet (variant type vectors over SNV/MNP/INS/DEL x haplotype patterns x read sets incl. gapped and "
+        "paired reads x margins around the re-alignment overhang x tag/only-snvs/reference/sample/chromosome options, depth above the "
+        "coverage cap) is phased by run_whatshap in-process; every phase set must equal the true haplotypes or their exchange.",
+        "Trusted: the synthesiser (reads are exact copies of the haplotypes, indels placed at the VCF position), the independent text VCF "
+        "decoder. Well-separated variants, repeat-free reference.",
+        "C02",
+    ),
+    "C19": (
+        EXPL,
+        "complete enumeration of genotypes / string pairs against the VCF-specification ordering and full-matrix Levenshtein",
+        "All allele multisets up to ploidy 6 x 6 alleles (all pairs compared) plus complete slices up to the hard limits (ploidy 14, "
+        "allele 15); all ordered string pairs over {A,C} up to length 6 (8) and {A,C,G} up to 3 (5) x every band x str/bytes.",
+        "Trusted: recursive VCF genotype ordering and a textbook Levenshtein matrix (self-tested against hand-computed values).",
+        "C19",
+    ),
+})
+
 PENDING = {}
 
 
